@@ -121,7 +121,9 @@ impl Stream {
         {
             self.topics_ids.remove(&old_topic_name.clone());
             self.topics_ids.insert(name.to_owned(), topic_id);
-            let topic = self.get_topic_mut(id).with_error_context(|error| {
+            // Looked up by its numeric id: when the request addressed the topic by name, that name has just been
+            // replaced in the name index above and would not resolve any more.
+            let topic = self.get_topic_by_id_mut(topic_id).with_error_context(|error| {
                 format!("{COMPONENT} (error: {error}) - failed to get mutable reference to topic with id {id}")
             })?;
 
